@@ -891,13 +891,12 @@ class TermCanvas(Canvas):
 
     def tab(self, tabstop: int = 8) -> None:
         """
-        Moves cursor to the next 'tabstop' filling everything in between
-        with spaces.
+        Moves cursor to the next 'tabstop' (or the last column) without
+        changing the characters in between.
         """
         x, y = self.term_cursor
 
         while x < self.width - 1:
-            self.set_char(b" ")
             x += 1
 
             if self.is_tabstop(x):
